@@ -891,6 +891,9 @@ int EGLPNUM_TYPENAME_ILLsimplex (
 	{
 		rval = EGLPNUM_TYPENAME_ILLbasis_load (lp, B);
 		CHECKRVALG (rval, CLEANUP);
+		/* whatever pinf still holds was computed for the previous basis, possibly
+		 * of an LP with other dimensions; only the norms stored in B are valid */
+		EGLPNUM_TYPENAME_ILLprice_free_pricing_info (pinf);
 		if (it.algorithm == DUAL_SIMPLEX)
 		{
 			if (B->rownorms)
